@@ -14,6 +14,7 @@ pub struct Calls;
 
 impl Prop for Calls {
     type Case = Case;
+    crate::prog_shrink!();
     fn name(&self) -> String {
         "C05/calls".into()
     }
